@@ -191,6 +191,11 @@ func replay(prop, path string) int {
 			if rf.Property == "C20" || rf.Property == "C11" {
 				cp = rf.Property
 			}
+			for _, fn := range crashOwners[rf.Property] {
+				if strings.Contains(wo.stderr, fn) {
+					cp = rf.Property
+				}
+			}
 			fmt.Printf("VIOLATION property=%s replay=%s\n  %s\n", cp, path, crashSummary(wo.stderr))
 			return 1
 		}
